@@ -89,6 +89,13 @@ pub fn c10(r: &mut Rng, sz: &Sizes, out: &mut Vec<String>) {
     out.push("p_wide_algebra\t300000\t!ok".to_string());
     out.push("p_wide_algebra\t40000\t!ok".to_string());
     let mut p = pool(r, sz.shapes);
+    for (a, b) in display_twins() {
+        out.push(format!("similar\t{}\t{}", sx(&a), sx(&b)));
+        out.push(format!("similar\t{}\t{}", sx(&b), sx(&a)));
+        out.push(format!("p_similar\t{}\t{}\t!ok", sx(&a), sx(&b)));
+        out.push(format!("p_similar\t{}\t{}\t!ok", sx(&b), sx(&a)));
+        out.push(format!("subset\t{}\t{}", sx(&a), sx(&b)));
+    }
     for (a, b) in wide_shapes() {
         out.push(format!("similar\t{}\t{}", sx(&a), sx(&b)));
         out.push(format!("p_similar\t{}\t{}\t!ok", sx(&a), sx(&json_shape::verif::as_optional(a.clone()))));
@@ -326,6 +333,16 @@ fn docs(r: &mut Rng, sz: &Sizes) -> Vec<J> {
     out.extend(near_equal_docs());
     out.extend(small_scope_docs());
     out.extend(dict_docs());
+    // two arrays whose record shapes RENDER alike (a member name containing the rendered text of another member list)
+    for t in [
+        "[[{\"p q\":1,\"r s\":2}],[{\"p q\\\": Number, \\\"r s\":3}]]",
+        "[[{\"x!\":1,\"y!\":2}],[{\"x!\\\": Number, \\\"y!\":3}]]",
+        "[{\"k\":{\"p q\":1,\"r s\":\"t\"}},{\"k\":{\"p q\\\": Number, \\\"r s\":\"u\"}}]",
+    ] {
+        if serde_json::from_str::<serde_json::Value>(t).is_ok() {
+            out.push(parse_j(t));
+        }
+    }
     for i in 0..sz.docs {
         let depth = i % 5;
         out.push(rand_doc(r, depth, DKEYS));
@@ -1028,6 +1045,27 @@ pub fn c11(r: &mut Rng, sz: &Sizes, out: &mut Vec<String>) {
         p.push(rand_shape(r, 1 + i % 4));
     }
     p.extend(dict_shapes());
+    // (serde_json reads 128 levels: shapes nested deeper than about 40 levels are outside what its round trip can do)
+    let shallow = |x: &JsonShape| {
+        let t = sx(x);
+        let mut d = 0i32;
+        let mut m = 0i32;
+        for c in t.chars() {
+            if c == '(' {
+                d += 1;
+                m = m.max(d);
+            } else if c == ')' {
+                d -= 1;
+            }
+        }
+        m <= 30
+    };
+    for (a, b) in wide_shapes().into_iter().chain(display_twins()) {
+        if shallow(&a) && shallow(&b) {
+            p.push(a);
+            p.push(b);
+        }
+    }
     // a few shapes whose keys need quoting / escaping in JSON
     for k in ["key space", "q\"uote", "back\\slash", "tab\tkey", "new\nline", "\u{1}ctl", "\u{e9}", ""] {
         let mut c = std::collections::BTreeMap::new();
@@ -2039,6 +2077,18 @@ fn source_sets(r: &mut Rng, n: usize) -> Vec<Vec<String>> {
 }
 
 pub fn compile_ops(r: &mut Rng, n: usize, op: &str, out: &mut Vec<String>) {
+    // collection names that END in a dotted suffix the source itself uses (a name ending in the generated file's
+    // own extension), next to the plain name
+    for w in crate::dict::words() {
+        if let Some(i) = w.find('.') {
+            let suf = &w[i..];
+            if suf.len() > 1 && suf.len() <= 24 && suf.chars().all(|c| c.is_ascii_alphanumeric() || c == '.' || c == '_' || c == '-') {
+                for base in ["users", "x"] {
+                    out.push(format!("{op}\t{}\t{}", crate::wire::hex(format!("{base}{suf}").as_bytes()), crate::wire::hex(b"{\"a\":1}")));
+                }
+            }
+        }
+    }
     // DICTIONARY: the source's string literals that can be file names, as collection names
     for w in crate::dict::words() {
         if !w.is_empty() && w.len() <= 24 && w.chars().all(|c| c.is_ascii_alphanumeric() || "._- ".contains(c)) && w != "." && w != ".." {
